@@ -45,7 +45,16 @@ def _rig():
 # ---------------------------------------------------------------- encoding for the model
 
 def enc_sync(R, sync):
-    return [[d[0], R.ITYPES.index(d[1]), R.SHAPES.index(d[2])] for d in sync]
+    return [[d[0], R.typ_code(d[1]), R.SHAPES.index(d[2]), enc_content(R, d[3] if len(d) > 3 else None)]
+            for d in sync]
+
+
+def enc_content(R, content):
+    """((attr ...) (child ...)) with byte strings; the model carries it and never looks at it"""
+    if not content:
+        return [[], []]
+    return [[], [[tag.encode(), [[k.encode(), v.encode()] for k, v in sorted(attrs.items())]]
+                 for tag, attrs in R.CONTENTS[content]]]
 
 
 def enc_op(R, op):
@@ -56,7 +65,7 @@ def enc_op(R, op):
     if op[0] == "lib":
         return [1, R.LKINDS.index(op[1]), enc_sync(R, R.op_sync(op))]
     if op[0] == "dlv":
-        return [2, op[1], R.ITYPES.index(op[2]), R.SHAPES.index(op[3])]
+        return [2, op[1], R.typ_code(op[2]), R.SHAPES.index(op[3]), enc_content(R, op[4] if len(op) > 4 else None)]
     return [3, op[2]]
 
 
@@ -66,7 +75,7 @@ def expand(R, history):
     for p, op in enumerate(history):
         out.append((p, op))
         for d in R.op_sync(op):
-            out.append((p, ["dlv", d[0], d[1], d[2]]))
+            out.append((p, ["dlv"] + list(d)))
     return out
 
 
@@ -87,7 +96,7 @@ def dec_events(R, evs):
         c = e[0]
         if c == 0: out.append(["issued", e[1]])
         elif c == 1: out.append(["sent", e[1]])
-        elif c == 2: out.append(["iface", e[1], R.ITYPES[e[2]]])
+        elif c == 2: out.append(["iface", e[1], (R.ITYPES + ["other"])[e[2]]])
         elif c == 3:
             w = "success" if e[2] == 0 else "error"
             out.append(["appcb", e[1], w, e[3][0], "result" if e[2] == 0 else "error"])
@@ -142,9 +151,7 @@ def nonreply_before_first(R, history, p, mid):
     """a get/set iq carrying id mid is delivered after request p and before the first reply to mid"""
     for _, o in after_request(R, history, p):
         if o[0] == "dlv" and o[1] == mid:
-            if o[2] in ("get", "set"):
-                return True
-            return False
+            return o[2] not in ("result", "error")
     return False
 
 
@@ -302,11 +309,11 @@ def drop_op(R, history, idx):
         if o[0] == "dlv":
             if o[1] == m:
                 continue
-            out.append(["dlv", ren(o[1]), o[2], o[3]])
+            out.append(["dlv", ren(o[1])] + list(o[2:]))
         elif o[0] == "oth":
             out.append(["oth", o[1], ren(o[2])])
         elif R.op_sync(o):
-            out.append(with_sync(R, o, [[ren(d[0]), d[1], d[2]] for d in R.op_sync(o) if d[0] != m]))
+            out.append(with_sync(R, o, [[ren(d[0])] + list(d[1:]) for d in R.op_sync(o) if d[0] != m]))
         else:
             out.append(o)
     return out
@@ -322,7 +329,7 @@ def candidates(R, cur):
         for j in range(len(sync) - 1, -1, -1):
             yield cur[:idx] + [with_sync(R, cur[idx], sync[:j] + sync[j + 1:])] + cur[idx + 1:]
         if sync:
-            yield cur[:idx] + [with_sync(R, cur[idx], [])] + [["dlv", d[0], d[1], d[2]] for d in sync] + cur[idx + 1:]
+            yield cur[:idx] + [with_sync(R, cur[idx], [])] + [["dlv"] + list(d) for d in sync] + cur[idx + 1:]
 
 
 def shrink(R, history, still_fails, budget=200):
@@ -363,11 +370,11 @@ def well_shaped(R, history):
             kinds[n] = op[1]
             sync = R.op_sync(op)
             if sync:
-                sync = [[n if d[0] == OWN else d[0], d[1], d[2]] for d in sync]
-                op = with_sync(R, op, [[d[0], d[1], shaped(*d)] for d in sync])
+                sync = [[n if d[0] == OWN else d[0]] + list(d[1:]) for d in sync]
+                op = with_sync(R, op, [[d[0], d[1], shaped(*d[:3])] + list(d[3:]) for d in sync])
             out.append(op)
         elif op[0] == "dlv":
-            out.append(["dlv", op[1], op[2], shaped(op[1], op[2], op[3])])
+            out.append(["dlv", op[1], op[2], shaped(op[1], op[2], op[3])] + list(op[4:]))
         else:
             out.append(op)
     return out
@@ -387,7 +394,8 @@ def drivable(R, history):
         if op[0] in ("app", "lib"):
             n += 1
             reqs[n] = op
-        for mid, typ, shape in R.op_sync(op):
+        for d in R.op_sync(op):
+            mid, typ, shape = d[0], d[1], d[2]
             if shape == "sping":
                 return False
             rq = reqs.get(mid)
@@ -400,6 +408,89 @@ def drivable(R, history):
                 if b > 0 and ((typ == "result" and rs and rq[2]) or (typ == "error" and re_ and rq[3])):
                     return False
     return True
+
+
+def parsable(R, history):
+    """no delivery of the history is an error reply the forwarding callback's reply-entity parser rejects
+    (outside the domain: reply parsing is not modelled)"""
+    reqs, n = {}, 0
+    for _, o in expand(R, history):
+        if o[0] in ("app", "lib"):
+            n += 1
+            reqs[n] = o
+        elif o[0] == "dlv" and len(o) > 4 and o[4] and o[1] in reqs:
+            rq = reqs[o[1]]
+            if R.unparsable(rq[0], rq[1], o[2], o[4]):
+                return False
+    return True
+
+
+def systematic_content(R):
+    """every request kind x every content of the error reply (the <error> child(ren) and their attributes:
+    none / code+text / backoff 0, 3600, 1, abc, -5 / two children / no child at all) x what follows: a replay of
+    the same error, a result for the same id, an error without backoff; result replies that carry an
+    <error backoff> child; the type attribute written in other ways; the same from inside the request's send"""
+    hs = []
+    reqs = [["app", k, 1, 1] for k in R.AKINDS] + [["lib", k] for k in R.LKINDS]
+    for rq in reqs:
+        for c in R.ERROR_CONTENTS:
+            if R.unparsable(rq[0], rq[1], "error", c):
+                continue
+            e = ["dlv", 1, "error", "plain", c]
+            hs.append([rq, e, e])                                             # then the same error again
+            hs.append([rq, e, ["dlv", 1, "result", "plain"], e])              # then a result for the same id
+            hs.append([rq, e, ["dlv", 1, "error", "plain"], ["dlv", 1, "result", "plain"]])   # then a plain error
+        for c in R.RESULT_CONTENTS:
+            r = ["dlv", 1, "result", "plain", c]
+            hs.append([rq, r, r, ["dlv", 1, "error", "plain", "err-backoff-3600"]])
+        # "Error" / "ERROR" / "Result" / "errors" are no replies: the request stays outstanding, the real reply
+        # (with a backoff) answers it, once
+        for t in R.OTHER_TYPES:
+            hs.append([rq, ["dlv", 1, t, "plain", "err-backoff-3600"], ["dlv", 1, "error", "plain", "err-backoff-3600"],
+                       ["dlv", 1, t, "plain", "err-backoff-3600"], ["dlv", 1, "error", "plain", "err-backoff-3600"]])
+        # the backoff error read while the request is still being handed down; replays inside and afterwards
+        for c in ("err-backoff-3600", "err-two-plain-backoff"):
+            n_ = [OWN, "error", "plain", c]
+            hs.append([with_sync(R, rq, [n_]), ["dlv", 1, "error", "plain", c], ["dlv", 1, "result", "plain"]])
+            hs.append([with_sync(R, rq, [n_, n_, [OWN, "result", "plain"]])])
+        # two outstanding requests of the kind, both refused with a backoff, replays out of order
+        b = "err-backoff-3600"
+        hs.append([rq, rq, ["dlv", 2, "error", "plain", b], ["dlv", 1, "error", "plain", b],
+                   ["dlv", 2, "error", "plain", b], ["dlv", 1, "result", "plain"], ["dlv", 2, "result", "plain"]])
+    hs = [well_shaped(R, [list(o) for o in h]) for h in hs]
+    return [h for h in hs if drivable(R, h)]
+
+
+def random_content(R, rng, history):
+    """give some deliveries of a history a random content (parsable for the request they answer) and write
+    some type attributes in another way"""
+    reqs, n, out = {}, 0, []
+
+    def pick(mid, typ):
+        if rng.random() < .65:
+            return None
+        pool = R.RESULT_CONTENTS if typ == "result" else R.ERROR_CONTENTS
+        c = rng.choice(pool + ["err-backoff-3600", "err-backoff-1"])
+        rq = reqs.get(mid)
+        if rq is not None and R.unparsable(rq[0], rq[1], typ, c):
+            return None
+        return c
+    for op in history:
+        if op[0] in ("app", "lib"):
+            n += 1
+            reqs[n] = op
+            sync = R.op_sync(op)
+            if sync:
+                op = with_sync(R, op, [list(d[:3]) + ([pick(d[0], d[1])] if len(d) == 3 else list(d[3:])) for d in sync])
+                op = with_sync(R, op, [d if d[3] else d[:3] for d in R.op_sync(op)])
+        elif op[0] == "dlv" and len(op) == 4:
+            typ = op[2]
+            if typ == "error" and rng.random() < .06:
+                typ = rng.choice(R.OTHER_TYPES)
+            c = pick(op[1], typ)
+            op = ["dlv", op[1], typ, op[3]] + ([c] if c else [])
+        out.append(op)
+    return out
 
 
 def systematic_sync(R):
@@ -442,7 +533,7 @@ def systematic_sync(R):
                                [[OWN, "get", "plain"]]), ["dlv", 1, other, "plain"], ["dlv", 1, first, "plain"],
                      ["dlv", 1, first, "plain"]],
                 ]
-            hs += [well_shaped(R, h) for h in fam]
+            hs += [h for h in (well_shaped(R, f) for f in fam) if drivable(R, h)]
     return hs
 
 
@@ -659,9 +750,18 @@ def run(ctx):
     cases += [("random", random_history(R, ctx.rng)) for _ in range(nrand)]
     nrs = 2000 if ctx.tier == "quick" else 30000
     cases += [("random-sync", random_history(R, ctx.rng, p_sync=0.45)) for _ in range(nrs)]
-    undrivable = [src for src, h in cases if not drivable(R, h)]
+    cases += [("systematic-content", h) for h in systematic_content(R)]
+    nrc = 2000 if ctx.tier == "quick" else 30000
+    cases += [("random-content", random_content(R, ctx.rng, random_history(R, ctx.rng, p_sync=0.25)))
+              for _ in range(nrc)]
+    unparsed = [src for src, h in cases if not parsable(R, h)]
+    if unparsed:   # generator bug, not a finding
+        ctx.notes.append("generator: %d histories with error replies the reply-entity parser rejects were skipped" % len(unparsed))
+        cases = [(src, h) for src, h in cases if parsable(R, h)]
+    undrivable = [(src, h) for src, h in cases if not drivable(R, h)]
     if undrivable:   # a generator bug, not a finding: such a history would raise inside the rig
-        ctx.notes.append("generator: %d histories with nested deliveries that send down again were skipped" % len(undrivable))
+        ctx.notes.append("generator: %d histories with nested deliveries that send down again were skipped, e.g. %s %s"
+                         % (len(undrivable), undrivable[0][0], json.dumps(undrivable[0][1])))
         cases = [(src, h) for src, h in cases if drivable(R, h)]
     if ctx.tier == "thorough":
         cases += [("exhaustive", h) for h in exhaustive(R, 4)]
@@ -731,31 +831,34 @@ def run(ctx):
                 sf = [x for x in oracle(R, small, si) if x[0] == name and x[1] == fkey]
                 shape = (name, src.endswith("-2thread"),
                          json.dumps([[o[0], "*"] + list(o[2:]) if o[0] in ("app", "lib") else o for o in small]))
-                if shape in reported_shapes and known_open(ctx, fkey) is None:
-                    continue     # the same minimal history for another request kind
-                reported_shapes.add(shape)
-                ctx.violation("oracle:" + name,
-                              {"history": small, "failure": sf[0][2] if sf else detail,
-                               "observed_events": si.get("events"), "registries_after": si.get("regs"),
-                               "original_history": h, "source": src,
-                               "reader_thread": src.endswith("-2thread")}, key=fkey)
+                # (the same minimal history for another request kind is reported once)
+                if shape not in reported_shapes or known_open(ctx, fkey) is not None:
+                    reported_shapes.add(shape)
+                    ctx.violation("oracle:" + name,
+                                  {"history": small, "failure": sf[0][2] if sf else detail,
+                                   "observed_events": si.get("events"), "registries_after": si.get("regs"),
+                                   "original_history": h, "source": src,
+                                   "reader_thread": src.endswith("-2thread")}, key=fkey)
         # correspondence
         if mod is not None and mod[i] != impl[i]:
             mismatches += 1
             sig = src.split(":")[0]
-            if len(reported_corr) < 4:
+            if len(reported_corr) < 8:
                 reported_corr.add(mismatches)
 
                 def differs(c):
                     r = model.call("run_hist", [enc_op(R, o) for o in c])
                     return dec_model(R, r) != run_impl(R, c, reader_thread=src.endswith("-2thread"))
                 small = shrink(R, h, differs)
-                sm = dec_model(R, model.call("run_hist", [enc_op(R, o) for o in small]))
-                si = run_impl(R, small, reader_thread=src.endswith("-2thread"))
-                ctx.violation("correspondence:C08.history",
-                              {"history": small, "model": sm, "impl": si, "original_history": h, "source": src,
-                               "reader_thread": src.endswith("-2thread")},
-                              found_input=bool(oracle(R, small, si)))
+                cshape = json.dumps([[o[0], "*"] + list(o[2:]) if o[0] in ("app", "lib") else o for o in small])
+                if cshape not in reported_shapes:   # (once per minimal history, whatever the request kind)
+                    reported_shapes.add(cshape)
+                    sm = dec_model(R, model.call("run_hist", [enc_op(R, o) for o in small]))
+                    si = run_impl(R, small, reader_thread=src.endswith("-2thread"))
+                    ctx.violation("correspondence:C08.history",
+                                  {"history": small, "model": sm, "impl": si, "original_history": h, "source": src,
+                                   "reader_thread": src.endswith("-2thread")},
+                                  found_input=bool(oracle(R, small, si)))
         if i % 431 == 0:
             ctx.add_sample({"source": src, "history": h, "events": impl[i].get("events"),
                             "registries_after": {k: v for k, v in impl[i].get("regs", {}).items() if v}})
